@@ -66,6 +66,9 @@ def check(run):
         run.guard("C02.via.C03.6.scheme-patterns", cfg, lambda: _C03.rule_scheme_patterns(b3, F, cfg))
         run.guard("C02.3.regex-translation", cfg + "/builder", lambda: rule_regex_builder(run, F, cfg))
         run.guard("C02.3.regex-translation", cfg + "/case", lambda: rule_regex_case(run, F, cfg))
+        from . import C12 as _C12
+        b12 = run.borrow("C12", why="patterns (and `|` right anchors) are evaluated on the complete URL, fragment included")
+        run.guard("C02.via.C12.7.whole-url", cfg, lambda: _C12.rule_whole_url(b12, F, cfg))
         run.guard("C02.2.flag-names", cfg, lambda: rule_flags(run, F, cfg))
         run.guard("C02.3.regex-translation", cfg, lambda: rule_translation(run, F, cfg))
         run.guard("C05.4.disjunction", cfg, lambda: C05.rule_disjunction(run, F, cfg))
